@@ -94,7 +94,7 @@ theorem openLoop_image_ck_C7c (cfg : Cfg) (ht : cfg.truncate = true) {img : Fs}
       hfiles hchc (fun p _ => rfl) rfl hck0 hok
   rw [List.nil_append] at m10
   obtain ⟨hfs1, hevs1⟩ := m1.fs_evs
-  have hfs1' : a1.fs = img := hfs1
+  obtain ⟨g1, hfg1, hd1, _, _⟩ := Fs.find_syncAll_some (jc.map (·.1.id)) hg0
   obtain ⟨p1, p2⟩ := loads_prevEnd_C5b jc _ _ m1
     (fun p hp => by
       obtain ⟨f, k1, k2, k3, _, k5⟩ := hfiles p hp
@@ -113,8 +113,9 @@ theorem openLoop_image_ck_C7c (cfg : Cfg) (ht : cfg.truncate = true) {img : Fs}
         rw [offsetsFrom_headD_C5b] at this
         exact this
       simp [gapCheck, hp, this]
-  have hf1 : a1.fs.find oid = some g0 := by rw [hfs1']; exact hg0
+  have hf1 : a1.fs.find oid = some g1 := by rw [hfs1]; exact hfg1
   have hoc := openChunk_prefix_C5b ht hparse hcase oid
+  rw [← hd1] at hoc
   have hcl1 : a1.sm.closed = jc.map (·.1) := by rw [m4]; rfl
   -- the cache before the newest chunk
   have hcpre : CK0C7c a1.pre.sm (flatOps jc) := m10.of_fields rfl rfl rfl rfl
